@@ -9,7 +9,7 @@
 From DV Require Import Base.Prelude Model.NameM Model.ParserM Model.UntrustedM.
 From DV Require Model.TokM Model.SchemaM Model.SchemaHand Proofs.UntrustedSchema Proofs.UntrustedHand Model.ZoneTextM Proofs.UntrustedZone
                 Model.RdTextM Model.UntrustedTextM Proofs.UntrustedMsgText Proofs.UntrustedMsgTerm
-                Model.TsigM Proofs.UntrustedTsig.
+                Model.TsigM Proofs.UntrustedTsig Proofs.UntrustedEdns.
 From DV Require Import Proofs.NameValid Proofs.ParserSafe Proofs.ParserProg
                        Proofs.UntrustedSafe Proofs.UntrustedDec Proofs.UntrustedText.
 Open Scope Z_scope.
@@ -173,6 +173,25 @@ Theorem rdata_wire_hand_renders : forall (h : SchemaHand.hid) (wire : list Z) (c
   exists w', SchemaHand.hand_encode_rdata h None vs = Ok w'.
 Proof. exact UntrustedHand.hand_from_wire_renders. Qed.
 Print Assumptions rdata_wire_hand_renders.
+
+(* ================= the direct EDNS option API ================= *)
+
+(* dns.edns.option_from_wire(otype, wire, current, olen) is NOT under ExceptionWrapper.  Every
+   option class of dns/edns.py (ECS, COOKIE, EDE, NSID, REPORTCHANNEL, the four text options,
+   GenericOption) on every octet string, every offset and every non-negative length: an option, a
+   FormError-family error, the dns.exception.SyntaxError of dns.ipv4.inet_ntoa (ECS with more than
+   four IPv4 address octets), or the ValueError that the option constructors document and
+   tests/test_edns.py pins (ECS family / prefix lengths, COOKIE lengths) - never struct.error,
+   IndexError or UnicodeDecodeError. *)
+Theorem no_internal_edns_option : forall (wire : list Z), bytes_ok wire ->
+  forall (otype current olen : Z), 0 <= olen ->
+  match fst (option_from_wire wire otype current olen) with
+  | Val _ => True
+  | Exn (XLib e) => is_form e = true \/ e = eSyntax
+  | Exn (XInt e) => e = iValueError
+  end.
+Proof. exact UntrustedEdns.option_from_wire_outcome. Qed.
+Print Assumptions no_internal_edns_option.
 
 (* ================= messages ================= *)
 
@@ -539,3 +558,11 @@ Example ex_unimplemented_algorithm_multi :
        (Some {| TsigM.c_hash := TsigM.SHA256; TsigM.c_size := None; TsigM.c_key := [1]; TsigM.c_data := [] |}) true 0
   = Lib TsigM.eBadAlgorithm.
 Proof. exact UntrustedTsig.unimplemented_algorithm_multi. Qed.
+
+(* the direct option API: ECS with a /33 IPv4 prefix is inet_ntoa's SyntaxError, a scope of 33 bits
+   the constructor's ValueError; inside an OPT record both are FormError *)
+Example ex_ecs_direct :
+  fst (option_from_wire [0;1;33;0; 1;2;3;4;5] 8 0 9) = Exn (XLib eSyntax)
+  /\ fst (option_from_wire [0;1;32;33; 1;2;3;4] 8 0 8) = Exn (XInt iValueError)
+  /\ fst (option_from_wire [0;1;24;0; 1;2;3] 8 0 7) = Val tt.
+Proof. vm_compute. repeat split; reflexivity. Qed.
